@@ -68,7 +68,8 @@ def snapshot(prs):
         refs = []
         el = getattr(p, "_element", None)
         if el is not None:
-            refs = sorted(str(v) for v in el.xpath("//@*[namespace-uri()='%s']" % R_NS))
+            # r:id="" (PowerPoint's convention on the a:hlinkClick of a media shape) names no relationship
+            refs = sorted(str(v) for v in el.xpath("//@*[namespace-uri()='%s']" % R_NS) if str(v) != "")
         out[id(p)] = (str(p.partname), p.content_type, _rels_of(p.rels, pid, raw=True), refs)
     return out, {id(p): p for p in parts}
 
@@ -86,9 +87,9 @@ def deltas(a, b):
     for k, (name, ct, rels, refs) in b.items():
         if k not in a:
             out.append(("addPart", k, name))
-    for k in a:
-        if k in b and a[k][0] != b[k][0]:
-            out.append(("rename", k, b[k][0]))
+    ren = [(k, b[k][0]) for k in a if k in b and a[k][0] != b[k][0]]
+    if ren:
+        out.append(("rename", ren))   # simultaneous: slide parts are renumbered in one go
     for k, (name, ct, rels, refs) in b.items():
         old_rels = a[k][2] if k in a else {}
         for rid, tgt in rels.items():
@@ -111,9 +112,9 @@ def deltas(a, b):
         for rid in old_rels:
             if rid not in rels:
                 out.append(("dropRel", k, rid))
-    for k in a:
-        if k not in b:
-            out.append(("dropPart", k))
+    gone = [k for k in a if k not in b]
+    if gone:
+        out.append(("dropParts", gone))   # parts that became unreachable leave the package together
     return out
 
 
@@ -140,7 +141,7 @@ def enc_deltas(ds, ids):
         if d[0] == "addPart":
             out.append(f"P{ids(d[1])}:{enc(d[2])}")
         elif d[0] == "rename":
-            out.append(f"N{ids(d[1])}:{enc(d[2])}")
+            out.append("N" + "+".join(f"{ids(k)}={enc(n)}" for k, n in d[1]))
         elif d[0] in ("addRel", "retarget"):
             t = d[3]
             out.append(f"{'R' if d[0] == 'addRel' else 'T'}{ids(d[1])}:{enc(d[2])}:{('i%d' % ids(t[1])) if t[0] == 'i' else 'x'}")
@@ -150,8 +151,8 @@ def enc_deltas(ds, ids):
             out.append(f"f{ids(d[1])}:{enc(d[2])}")
         elif d[0] == "dropRel":
             out.append(f"r{ids(d[1])}:{enc(d[2])}")
-        elif d[0] == "dropPart":
-            out.append(f"p{ids(d[1])}")
+        elif d[0] == "dropParts":
+            out.append("p" + ".".join(str(ids(k)) for k in d[1]))
     return ",".join(out) or "!"
 
 
@@ -428,9 +429,9 @@ def run_history(ctx, rng, thorough=False):
     steps = []
     n = rng.randint(4, 30)
     for i in range(n):
-        save_now = rng.random() < (0.5 if thorough else 0.25) or i == n - 1
+        save_now = rng.random() < (0.5 if thorough else 0.25) or i == n - 1 or (i == 0 and kind == "scrambled")
         try:
-            desc = do_op(rng, prs, st)
+            desc = "noop-before-first-save" if (i == 0 and kind == "scrambled" and rng.random() < 0.6) else do_op(rng, prs, st)
         except Exception as e:  # noqa
             ctx.fail("operation-raised", f"operation raised {type(e).__name__}: {str(e)[:200]} after history {hist}", {"hist": hist[:]})
             return None
@@ -444,8 +445,10 @@ def run_history(ctx, rng, thorough=False):
             buf = io.BytesIO()
             case = {"hist": hist[:]}
             try:
-                before = content(prs)
+                # save FIRST, look afterwards: reading the slides (which renames slide parts on first access) must not
+                # be forced by the harness before a save the history did not ask for
                 prs.save(buf)
+                before = content(prs)
             except Exception as e:  # noqa
                 ctx.fail("save-raised", f"save raised {type(e).__name__}: {str(e)[:200]} after history {hist}", case)
                 return None
